@@ -98,7 +98,7 @@ fn main() {
         }
     } }
     // messages: every string over the alphabet up to length D, written as a Rust string literal
-    let alphabet = ["a", "Z", "1", " ", ",", "(", ")", "=", "'", "ß", "€", "😀", "\"", "\\", "\n", "\t", "min", "max", "message", "email", "url", "length", "range"];
+    let alphabet = ["a", "Z", "1", " ", ",", "(", ")", "=", "'", "ß", "€", "😀", "\"", "\\", "\n", "\t", "n", "t", "min", "max", "message", "email", "url", "length", "range"];
     let d = std::cmp::min(Report::depth().saturating_sub(1), 4);
     let mut msgs: Vec<String> = vec![String::new()];
     let mut frontier = msgs.clone();
